@@ -132,30 +132,36 @@ CHECKS = {
          "(/repo fb8da0d remote join lost wake-up, 8fff3bc cancellation from another thread missed); F20 (teardown "
          "use-after-free with two concurrent remote schedulers) is recorded in known_findings.json."),
  "C08": dict(
-    engine="kani",
+    engine="kani + mirsym",
     technique="bounded model checking of the compiled op implementations of both drivers in one build (Kani/CBMC): "
               "IourOpCode::create_entry (SQE decoded via the kernel ABI layout) against PollOpCode::operate with rustix' private "
-              "syscall functions replaced by recording stubs; fd/offset/view/result are solver-chosen",
+              "syscall functions replaced by recording stubs; fd/offset/view/result are solver-chosen; second layer: the coroutine MIR of the compio-fs File wrappers interpreted with uninterpreted functions (mirsym), z3 deciding which operation is built from which arguments and which result mapping is applied",
     category="proof",
     text="Proof within bounds, at the op layer: for ReadAt, WriteAt, Read, Write on a heap buffer view of capacity 8 with symbolic "
          "fd, offset, length and view bounds, the io_uring submission entry and the polling driver's syscall are the same request "
          "(kind, fd, pointer, length, offset), that request is exactly the buffer contract (reads: the whole writable region; "
          "writes: exactly the initialized bytes, never more), the syscall's byte count is returned unchanged, an OS error is "
-         "returned unchanged, would-block parks the op on the right fd/direction and EINTR is retried.",
+         "returned unchanged, would-block parks the op on the right fd/direction and EINTR is retried; the same for the vectored "
+         "variants (iovec arrays compared pair by pair). Wrapper layer: File::{read_at, read_vectored_at, write_at, "
+         "write_vectored_at} build exactly one operation of the documented kind from the caller's descriptor / offset / buffer, "
+         "submit it once, and return map_advanced / map_vec_advanced (reads) or nothing but into_inner (writes) of the driver's result.",
     design_ref="DESIGN.md §1 C08/C14",
     note="What the kernel does with the request (file contents afterwards, append semantics, ordering of concurrent ops, EOF) is "
          "kernel behaviour and outside, as are compio-fs above the ops, the vectored/managed variants, and the submission/"
          "completion machinery (see C01/C02). Stubs: rustix::backend::io::syscalls::{pread,pwrite,read,write}."),
  "C14": dict(
-    engine="kani",
+    engine="kani + mirsym",
     technique="bounded model checking of the compiled socket op implementations of both drivers in one build (Kani/CBMC): "
               "IourOpCode::create_entry (SQE decoded) against PollOpCode::operate with rustix::backend::net::syscalls::{recv,send} "
-              "replaced by recording stubs; fd/flags/view/result are solver-chosen",
+              "replaced by recording stubs; fd/flags/view/result are solver-chosen; second layer: the coroutine MIR of the compio-net Socket / stream / half wrappers interpreted with uninterpreted functions (mirsym), z3 deciding which operation is built from which arguments and which result mapping is applied",
     category="proof",
     text="Proof within bounds, at the op layer: for Recv and Send on a heap buffer view of capacity 8 with symbolic fd, flags "
          "and view bounds, the io_uring submission entry and the polling driver's syscall are the same request (fd, pointer, "
          "length, flags) and equal the buffer contract (recv: the whole writable region, send: exactly the initialized bytes); "
-         "the syscall's byte count is returned unchanged.",
+         "the syscall's byte count is returned unchanged. Wrapper layer: Socket::{recv, recv_vectored, send, send_vectored, recv_from} "
+         "build exactly one operation of the documented kind from the caller's descriptor / buffer / flags and apply the documented "
+         "result mapping exactly once; every shutdown (Socket, TcpStream, UnixStream, by value or by reference) ends in exactly one "
+         "ShutdownSocket(fd, Write); the borrowed ReadHalf / WriteHalf forward read / write / shutdown to the wrapped stream.",
     design_ref="DESIGN.md §1 C08/C14",
     note="Stream ordering, datagram boundaries, accept/connect uniqueness, shutdown and peer-close behaviour are kernel behaviour "
          "or need live sockets and are outside; so are RecvFrom/SendTo/RecvMsg/SendMsg, vectored, managed, zero-copy and multishot "
@@ -287,7 +293,7 @@ def main():
         "engines": [
             {"name": "kani", "path": "kani/", "serves_properties": [p for p in props if p in CHECKS and CHECKS[p]["engine"].startswith("kani")],
              "kind_free_text": "out-of-tree Kani harness crates with path dependencies on /repo; CBMC decides"},
-            {"name": "mirsym", "path": "mirsym/", "serves_properties": [p for p in props if p in CHECKS and CHECKS[p]["engine"].startswith("mirsym")],
+            {"name": "mirsym", "path": "mirsym/", "serves_properties": [p for p in props if p in CHECKS and "mirsym" in CHECKS[p]["engine"]],
              "kind_free_text": "symbolic interpreter over rustc's MIR dump of /repo (regenerated per run); z3 decides, cvc5 cross-checks"},
         ],
         "checks": checks,
